@@ -278,7 +278,107 @@ def _g24(ctx, consumer, rel):
     ctx.col.floor("bucket_param_call_sites", n_sites, 2)
 
 
+def _bucket_table(ctx, rel) -> bool:
+    """S3 by value: `BucketBatchSampler.__iter__` is interpreted (sa/pyinterp.py; nothing is run) over sampler orders, bucket maps and
+    batch sizes, with and without dropping, twice in a row on the same sampler object, and the yielded batches are compared with the
+    documented behaviour written out by hand: an index goes to the pending list of its own bucket; a list is yielded (and forgotten)
+    the moment it reaches its bucket's size; at the end the incomplete lists are yielded iff drop_incomplete is false, each once; a
+    yielded list is not touched again; nothing carries over to the next iteration. Returns False when the code is outside the
+    interpreted fragment (the spelling rules below then decide)."""
+    from sa.pyinterp import PyInterp, Obj
+    from sa.inteval import NotEvaluable
+    col, pkg = ctx.col, ctx.pkg
+    f = pkg.func(f"{MOD}::BucketBatchSampler.__iter__")
+    where = f"{rel}::{f.qualname}"
+    cls = f.cls.node if getattr(f, "cls", None) is not None and hasattr(f.cls, "node") else None
+    methods = {st.name: st for st in (cls.body if cls is not None else []) if isinstance(st, ast.FunctionDef)}
+
+    def lookup(c):
+        fn_ = c.func
+        if isinstance(fn_, ast.Attribute) and isinstance(fn_.value, ast.Name) and fn_.value.id == "self" and fn_.attr in methods:
+            return methods[fn_.attr]
+        return None
+    cases = []
+    orders = ([0, 1, 2, 3, 4, 5, 6, 7, 8, 9], [9, 3, 7, 1, 5, 0, 8, 2, 6, 4], [4, 4, 1, 1, 1, 0], [], [2])
+    maps = ({i: i % 3 for i in range(10)}, {i: "ab"[i < 4] for i in range(10)}, {i: (i * 7) % 4 for i in range(10)}, {i: 0 for i in range(10)})
+    sizes = ({0: 2, 1: 3, 2: 1, 3: 4, "a": 2, "b": 3}, {0: 1, 1: 1, 2: 1, 3: 1, "a": 1, "b": 1}, {0: 4, 1: 2, 2: 5, 3: 3, "a": 5, "b": 2})
+    for o in orders:
+        for m in maps:
+            for sz in sizes:
+                for drop in (False, True):
+                    cases.append((o, m, sz, drop))
+
+    def want(order, m, sz, drop):
+        pending, full = {}, []
+        for idx in order:
+            b = m[idx]
+            pending.setdefault(b, []).append(idx)
+            if len(pending[b]) == sz[b]:
+                full.append(pending.pop(b))
+        return full, ([] if drop else [pending[b] for b in pending])
+    bad = None
+    try:
+        for order, m, sz, drop in cases:
+            self_ = Obj(sampler=list(order), idx2bucket=dict(m), bucket2size=dict(sz), drop_incomplete=drop)
+            full, rest = want(order, m, sz, drop)
+            for round_ in (1, 2):
+                env = {"self": self_}
+                kind, got = PyInterp(lookup=lookup).run(f.node, env)
+                ok = kind == "return" and isinstance(got, list) and got[:len(full)] == full \
+                    and sorted(map(repr, got[len(full):])) == sorted(map(repr, rest)) and env.get("__yield_refs__", []) == got
+                if not ok and bad is None:
+                    bad = (order, m, sz, drop, round_, got if kind == "return" else f"raises {got}", full + rest,
+                           env.get("__yield_refs__", []) if kind == "return" else None)
+    except NotEvaluable:
+        return False
+    col.count("bucket_table_rows", len(cases) * 2)
+    msg = ""
+    if bad:
+        later = bad[7] is not None and bad[7] != bad[5]
+        msg = (f"sampler order {bad[0]}, buckets {bad[1]}, sizes { {k: v for k, v in bad[2].items() if k in set(bad[1].values())} }, drop_incomplete={bad[3]}"
+               f"{' (second iteration of the same sampler)' if bad[4] == 2 else ''}: __iter__ yields {bad[5]}"
+               + (f", and the yielded lists later become {bad[7]}" if later else "")
+               + f"; by the documented behaviour it yields {bad[6]} (incomplete batches in any order)")
+    col.ob("G10", "S3", f"{where}::bucket-batches-table", bad is None, msg, rel, f.line, sample=dict(rows=len(cases) * 2))
+    # the reported length, by value: `_get_batch_sampler_len` interpreted on the same grid must give the number of batches the
+    # iteration yields, and leave the sampler as it found it (an epoch sampler hands out the epoch's order without advancing)
+    ln = pkg.func(f"{MOD}::_get_batch_sampler_len")
+    badl, nl = None, 0
+    try:
+        for order, m, sz, drop in cases:
+            inner = Obj(epoch=3, get_samples_for_epoch=lambda ep, order=order: list(order) if ep == 3 else list(reversed(order))[:-1])
+            bs = Obj(sampler=inner, idx2bucket=dict(m), bucket2size=dict(sz), drop_incomplete=drop)
+            holder = {}
+
+            def leaf(e, env):
+                if isinstance(e, ast.Call) and call_name(e) == "isinstance" and len(e.args) == 2 and u(e.args[1]) == "BucketBatchSampler":
+                    return True
+                if isinstance(e, ast.Call) and call_name(e).split(".")[-1] == "Counter" and len(e.args) == 1:
+                    cnt = {}
+                    for k_ in holder["it"].eval(e.args[0], env):
+                        cnt[k_] = cnt.get(k_, 0) + 1
+                    return cnt
+                return None
+            it = PyInterp(leaf=leaf)
+            holder["it"] = it
+            kind, got = it.run(ln.node, {ln.params[0].name: bs})
+            full, rest = want(order, m, sz, drop)
+            nl += 1
+            ok = kind == "return" and got == len(full) + len(rest) and inner.attrs["epoch"] == 3
+            if not ok and badl is None:
+                badl = (order, m, sz, drop, got if kind == "return" else f"raises {got}", len(full) + len(rest))
+    except NotEvaluable:
+        return True
+    col.count("bucket_len_table_rows", nl)
+    col.ob("G12", "S2", f"{rel}::{ln.qualname}::length-equals-the-number-of-batches-table", badl is None,
+           (f"epoch order {badl[0]}, buckets {badl[1]}, sizes { {k: v for k, v in badl[2].items() if k in set(badl[1].values())} }, drop_incomplete={badl[3]}: "
+            f"the reported length is {badl[4]}, the iteration yields {badl[5]} batches") if badl else "", rel, ln.line, sample=dict(rows=nl))
+    return True
+
+
 def _s3(ctx, rel):
+    if _bucket_table(ctx, rel):
+        return
     col, pkg = ctx.col, ctx.pkg
     f = pkg.func(f"{MOD}::BucketBatchSampler.__iter__")
     where = f"{rel}::{f.qualname}"
@@ -721,10 +821,10 @@ def _mutants():
           "ref_sizes = torch.tensor([len(x) for x in feats])\n        refs = torch.nn.utils.rnn.pad_sequence(refs, padding_value=config.INDEX_PAD_VALUE, batch_first=batch_first)\n    else:\n        ref_sizes = refs = None\n    if has_alis:", "each-sizes-tensor-measures-its-own-column"),
         M("ali-pad-zero", D, "alis = torch.nn.utils.rnn.pad_sequence(alis, padding_value=config.INDEX_PAD_VALUE, batch_first=batch_first)",
           "alis = torch.nn.utils.rnn.pad_sequence(alis, padding_value=0, batch_first=batch_first)", "pad("),
-        M("bucket-no-del", D, "yield batch\n                del batches[hash_]", "yield batch", "per-index-path"),
-        M("bucket-wrong-key", D, "batch = batches.setdefault(hash_, [])", "batch = batches.setdefault(batch_size, [])", "append-to-own-bucket"),
-        M("bucket-leftovers-always", D, "if not self.drop_incomplete:\n            for _, batch in", "if True:\n            for _, batch in", "leftovers-iff-kept"),
-        M("bucket-yield-early", D, "if batch_size == len(batch):\n                yield batch", "if batch_size <= len(batch) + 1:\n                yield batch", "yield-when-full"),
+        M("bucket-no-del", D, "yield batch\n                del batches[hash_]", "yield batch", "bucket-batches-table"),
+        M("bucket-wrong-key", D, "batch = batches.setdefault(hash_, [])", "batch = batches.setdefault(batch_size, [])", "bucket-batches-table"),
+        M("bucket-leftovers-always", D, "if not self.drop_incomplete:\n            for _, batch in", "if True:\n            for _, batch in", "bucket-batches-table"),
+        M("bucket-yield-early", D, "if batch_size == len(batch):\n                yield batch", "if batch_size <= len(batch) + 1:\n                yield batch", "bucket-batches-table"),
         M("collate-shuffles", D, "if sort:\n        seq = sorted(seq, key=lambda x: x[0].size(0), reverse=True)\n    seq = list(zip(*seq))",
           "if sort:\n        seq = sorted(seq, key=lambda x: x[0].size(0), reverse=True)\n    else:\n        seq = [seq[i] for i in torch.randperm(len(seq)).tolist()]\n    seq = list(zip(*seq))", "no-rng"),
         M("seed-positional-again", D, "sort_batch, init_epoch, seed=seed, file_prefix=file_prefix", "sort_batch, init_epoch, seed, file_prefix=file_prefix", "G1"),
